@@ -20,6 +20,7 @@ def specs(tier):
         J('steady2+1-novotermajority:H2S1X2', 'steady', dict(n=2, observers=1), dict(H=2, S=1, X=2), dict(k=0)),
         J('lagsnap2+1:H2R1', 'lagging_snap', dict(n=2, observers=1), dict(H=2, R=1), dict(lag='o1')),
         J('lagsnap3+1-chunk64:H2R1', 'lagging_snap', dict(n=3, observers=1, chunk=64), dict(H=2, R=1), dict(lag='o1')),
+        J('deposed-obs3+1:H1', 'deposed_obs', dict(n=3, observers=1), dict(H=1)),
         J('fresh2+3:E1', 'fresh', dict(n=2, observers=3), dict(E=1)),
     ]
     if not q:
